@@ -1,3 +1,873 @@
-From Coq Require Import List ZArith Bool QArith Lia.
+(* C20 — proofs about the model of C20_Model.v:
+     (A) the scalar and the array form of the ellipse coordinate transform agree (over an
+         abstract record of numeric operations: one order hypothesis, nothing about sqrt/asin);
+     (B) the sma schedule of the control skeleton of Ellipse.fit_image (REPAIRED inward loop)
+         for every oracle stream of fit outcomes, over exact rationals;
+     (C) the corrector chosen by EllipseFitter.fit is never one of a fixed parameter, hence
+         fixed parameters survive the whole iteration; invalid exits carry stop code 3. *)
+From Coq Require Import List ZArith Bool QArith Lia Lqa Sorted.
 From PV Require Import lib.Cases C20_Model.
 Import ListNotations.
+
+(* ================================================================== *)
+(* (A) polar transform twins                                           *)
+(* ================================================================== *)
+Section MaskLemmas.
+Context {A P : Type}.
+Lemma mselect_map (f : P -> A) (m : P -> bool) ps :
+  mselect (map f ps) (map m ps) = map f (filter m ps).
+Proof. induction ps as [|p ps IH]; simpl; auto. destruct (m p); simpl; rewrite IH; auto. Qed.
+Lemma massign_map (f g : P -> A) (m : P -> bool) ps :
+  massign (map f ps) (map m ps) (map g (filter m ps)) = map (fun p => if m p then g p else f p) ps.
+Proof. induction ps as [|p ps IH]; simpl; auto. destruct (m p); simpl; rewrite IH; auto. Qed.
+Lemma map2_map {B C D} (h : B -> C -> D) (f : P -> B) (g : P -> C) ps :
+  map2 h (map f ps) (map g ps) = map (fun p => h (f p) (g p)) ps.
+Proof. induction ps as [|p ps IH]; simpl; auto. rewrite IH; auto. Qed.
+End MaskLemmas.
+
+Section Twins.
+Context {A : Type}.
+Variables (padd psub pmul pdiv : A -> A -> A) (psqrt pasin pabs : A -> A)
+          (pltb pleb : A -> A -> bool) (c0 c1 c2 pi : A).
+Hypothesis ord : forall a, pleb c0 a = true -> pltb a c0 = false.
+
+Let S := to_polar_scalar padd psub pmul pdiv psqrt pasin pabs pltb pleb c0 c1 c2 pi.
+Let V := to_polar_vec padd psub pmul pdiv psqrt pasin pabs pltb pleb c0 c1 c2 pi.
+
+Lemma vec_pairs x0 y0 pa (ps : list (A * A)) :
+  V x0 y0 pa (map fst ps) (map snd ps) =
+  (map (fun p => fst (S x0 y0 pa (fst p) (snd p))) ps, map (fun p => snd (S x0 y0 pa (fst p) (snd p))) ps).
+Proof.
+  unfold V, to_polar_vec. cbv zeta.
+  repeat progress (rewrite ?map_map, ?map2_map, ?mselect_map, ?massign_map).
+  f_equal; apply map_ext; intros [x y]; unfold S, to_polar_scalar; cbn [fst snd].
+  - destruct (pltb c0 _); reflexivity.
+  - destruct (pltb c0 (padd _ _)); cbn [fst snd negb];
+    (destruct (pleb c0 (psub x x0)) eqn:Ex; [rewrite (ord _ Ex)|]);
+    (destruct (pleb c0 (psub y y0)) eqn:Ey; [rewrite (ord _ Ey)|]);
+    destruct (pltb (psub x x0) c0); destruct (pltb (psub y y0) c0); cbn [andb];
+    repeat match goal with |- context [if ?b then _ else _] => destruct b end; reflexivity.
+Qed.
+
+
+Lemma combine_fst_snd (xs ys : list A) : length xs = length ys ->
+  map fst (combine xs ys) = xs /\ map snd (combine xs ys) = ys.
+Proof.
+  revert ys. induction xs as [|x xs IH]; intros [|y ys] H; simpl in *; try discriminate; auto.
+  destruct (IH ys) as [E1 E2]; [congruence|]. rewrite E1, E2. auto.
+Qed.
+Lemma map2_combine {B} (f : A -> A -> B) : forall xs ys,
+  map2 f xs ys = map (fun p => f (fst p) (snd p)) (combine xs ys).
+Proof. induction xs as [|x xs IH]; intros [|y ys]; simpl; auto. rewrite IH. reflexivity. Qed.
+
+Lemma twins_agree x0 y0 pa xs ys : length xs = length ys ->
+  V x0 y0 pa xs ys = (map fst (map2 (S x0 y0 pa) xs ys), map snd (map2 (S x0 y0 pa) xs ys)).
+Proof.
+  intros H. destruct (combine_fst_snd xs ys H) as [E1 E2].
+  assert (E : V x0 y0 pa xs ys = V x0 y0 pa (map fst (combine xs ys)) (map snd (combine xs ys)))
+    by (rewrite E1, E2; reflexivity).
+  rewrite E, vec_pairs, map2_combine, !map_map. reflexivity.
+Qed.
+End Twins.
+
+
+(* ================================================================== *)
+(* (B) sma schedule                                                    *)
+(* ================================================================== *)
+Local Open Scope Q_scope.
+
+(* ------------------------------------------------------------------ *)
+(* booleans of the Q instance                                          *)
+(* ------------------------------------------------------------------ *)
+Lemma Qltb_iff a b : Qltb a b = true <-> a < b.
+Proof.
+  unfold Qltb. rewrite negb_true_iff. split; intro H.
+  - apply Qnot_le_lt. intro L. apply Qle_bool_iff in L. congruence.
+  - destruct (Qle_bool b a) eqn:E; auto. apply Qle_bool_iff in E.
+    exfalso. exact (Qlt_not_le _ _ H E).
+Qed.
+Lemma Qltb_false a b : Qltb a b = false <-> b <= a.
+Proof.
+  unfold Qltb. rewrite negb_false_iff. apply Qle_bool_iff.
+Qed.
+Lemma Qleb_false a b : Qle_bool a b = false <-> b < a.
+Proof.
+  rewrite <- Qltb_iff. unfold Qltb. destruct (Qle_bool a b); simpl; split; congruence.
+Qed.
+
+(* ------------------------------------------------------------------ *)
+(* generic list facts                                                  *)
+(* ------------------------------------------------------------------ *)
+Section SS.
+Context {X : Type}.
+Variable R : X -> X -> Prop.
+Lemma SS_snoc l x : StronglySorted R l -> Forall (fun y => R y x) l -> StronglySorted R (l ++ [x]).
+Proof.
+  induction l as [|a l IH]; simpl; intros HS HF.
+  - constructor; constructor.
+  - inversion HS; subst. inversion HF; subst. constructor; auto.
+    apply Forall_app; split; auto.
+Qed.
+Lemma SS_snoc_inv l x : StronglySorted R (l ++ [x]) -> StronglySorted R l /\ Forall (fun y => R y x) l.
+Proof.
+  induction l as [|a l IH]; simpl; intros HS.
+  - split; constructor.
+  - inversion HS; subst. destruct (IH H1) as [A B]. apply Forall_app in H2. destruct H2 as [H2 H3].
+    inversion H3; subst. split; constructor; auto.
+Qed.
+Lemma SS_app l1 l2 : StronglySorted R l1 -> StronglySorted R l2 ->
+  (forall a b, In a l1 -> In b l2 -> R a b) -> StronglySorted R (l1 ++ l2).
+Proof.
+  induction l1 as [|a l IH]; simpl; intros H1 H2 H; auto.
+  inversion H1; subst. constructor.
+  - apply IH; auto.
+  - apply Forall_app; split; auto. apply Forall_forall. intros b Hb. apply H; auto.
+Qed.
+Lemma SS_impl (R' : X -> X -> Prop) l : (forall a b, R a b -> R' a b) -> StronglySorted R l -> StronglySorted R' l.
+Proof.
+  intros HI. induction 1; constructor; auto. eapply Forall_impl; [|eassumption]. auto.
+Qed.
+End SS.
+Lemma SS_map {X Y} (f : X -> Y) (R : Y -> Y -> Prop) l :
+  StronglySorted R (map f l) -> StronglySorted (fun a b => R (f a) (f b)) l.
+Proof.
+  induction l as [|a l IH]; simpl; intros H; constructor; inversion H; subst; auto.
+  apply Forall_forall. intros b Hb. rewrite Forall_forall in H3. apply H3. apply in_map. auto.
+Qed.
+
+(* ------------------------------------------------------------------ *)
+(* growth steps (geometry.py:502-553)                                  *)
+(* ------------------------------------------------------------------ *)
+Lemma update_sma_increases lin sma step : 0 < step -> 0 < sma -> sma < update_sma Qnum lin sma step.
+Proof. intros Hs Ha. unfold update_sma. destruct lin; simpl; nra. Qed.
+
+Lemma update_sma_linear_increases sma step : 0 < step -> sma < update_sma Qnum true sma step.
+Proof. intros Hs. unfold update_sma. simpl. lra. Qed.
+
+Lemma update_sma_monotone lin a b step : 0 < step -> a < b -> update_sma Qnum lin a step < update_sma Qnum lin b step.
+Proof. intros Hs Hab. unfold update_sma. destruct lin; simpl; nra. Qed.
+
+Lemma reset_sma_spec lin a step sin istep :
+  0 < step -> reset_sma Qnum lin a step = (sin, istep) ->
+  (0 < a -> sin < a) /\ (forall x, 0 < x -> update_sma Qnum lin x istep < x).
+Proof.
+  intros Hs. unfold reset_sma, update_sma. destruct lin; simpl; intros E; inversion E; subst; clear E.
+  - split; intros; lra.
+  - assert (Haux : 1 / (1 + step) < 1) by (apply Qlt_shift_div_r; lra).
+    assert (Hpos : 0 < 1 / (1 + step)) by (apply Qlt_shift_div_l; lra).
+    set (aux := 1 / (1 + step)) in *. split; intros; nra.
+Qed.
+
+(* the inward step undoes the outward one: reset then grow returns to the start *)
+Lemma reset_sma_inverse lin a step sin istep :
+  0 < step -> reset_sma Qnum lin a step = (sin, istep) -> update_sma Qnum lin sin step == a.
+Proof.
+  intros Hs. unfold reset_sma, update_sma. destruct lin; simpl; intros E; inversion E; subst; clear E.
+  - lra.
+  - field. lra.
+Qed.
+
+(* ------------------------------------------------------------------ *)
+(* control skeleton of fit_image over Q                                *)
+(* ------------------------------------------------------------------ *)
+Notation isoQ := (iso Qnum).
+Definition smas (l : list isoQ) : list Q := map (i_sma Qnum) l.
+Definition stream_ok (s : list outcome) := forall c v, In (c, v) s -> v = false -> c = 3%Z.
+
+Lemma smas_app l1 l2 : smas (l1 ++ l2) = smas l1 ++ smas l2.
+Proof. apply map_app. Qed.
+
+Lemma fit_isophote_spec mr sma noiter l s i l1 s1 :
+  fit_isophote Qnum mr sma noiter l s = Some (i, l1, s1) -> stream_ok s ->
+  i_sma Qnum i = sma /\ (i_valid Qnum i = false -> i_code Qnum i = 3%Z) /\
+  l1 = (if i_valid Qnum i then l ++ [i] else l) /\ stream_ok s1.
+Proof.
+  unfold fit_isophote. intros H Hs.
+  destruct (noiter || match mr with Some m => truthy Qnum m && ltb Qnum m sma | None => false end).
+  - inversion H; subst; simpl. repeat split; auto; try discriminate.
+  - destruct (ltb Qnum (n0 Qnum) sma).
+    + destruct s as [|[c v] s']; [discriminate|]. inversion H; subst; simpl.
+      repeat split; auto.
+      * intros Hv. apply (Hs c v); simpl; auto.
+      * intros c' v' Hin. apply Hs. simpl; auto.
+    + inversion H; subst; simpl. repeat split; auto; try discriminate.
+Qed.
+
+Lemma last_opt_some (l : list isoQ) j : last_opt Qnum l = Some j -> exists l', l = l' ++ [j].
+Proof.
+  unfold last_opt. destruct (rev l) as [|i r] eqn:E; [discriminate|]. intros H; inversion H; subst.
+  exists (rev r). rewrite <- (rev_involutive l), E. reflexivity.
+Qed.
+Lemma last_opt_none (l : list isoQ) : last_opt Qnum l = None -> l = [].
+Proof.
+  unfold last_opt. destruct (rev l) as [|i r] eqn:E; [|discriminate]. intros _.
+  rewrite <- (rev_involutive l), E. reflexivity.
+Qed.
+
+Lemma fix_last_smas (l l' : list isoQ) : fix_last Qnum l = Some l' -> smas l' = smas l.
+Proof.
+  unfold fix_last. destruct (rev l) as [|i r] eqn:E.
+  - intros H; inversion H; auto.
+  - destruct r as [|k r]; [discriminate|]. intros H; inversion H; subst; clear H.
+    rewrite <- (rev_involutive l), E. simpl rev at 2. rewrite !smas_app. reflexivity.
+Qed.
+
+Section SchedQ.
+Variables (lin : bool) (step minsma : Q) (maxsma maxrit : option Q) (sma0 : Q).
+Hypothesis Hstep : 0 < step.
+Hypothesis Hsma0 : 0 < sma0.
+
+Definition below_max (x : Q) := forall m, maxsma = Some m -> truthy Qnum m = true -> x < m.
+Definition Pm (x : Q) := sma0 <= x /\ (x == sma0 \/ below_max x).
+
+(* outward loop: [ls] = smas already in the list, [sma] = the one about to be fitted *)
+Definition OI (ls : list Q) (sma : Q) :=
+  StronglySorted Qlt (ls ++ [sma]) /\ Forall Pm (ls ++ [sma]) /\ hd_error (ls ++ [sma]) = Some sma0.
+Definition OD (ls : list Q) :=
+  StronglySorted Qlt ls /\ Forall Pm ls /\ (ls = [] \/ hd_error ls = Some sma0).
+
+Lemma OI_OD_full ls sma : OI ls sma -> OD (ls ++ [sma]).
+Proof. intros (A & B & C). repeat split; auto. Qed.
+Lemma OI_OD_prefix ls sma : OI ls sma -> OD ls.
+Proof.
+  intros (A & B & C). apply SS_snoc_inv in A. destruct A as [A _].
+  apply Forall_app in B. destruct B as [B _]. repeat split; auto.
+  destruct ls; [left|right]; auto.
+Qed.
+Lemma OI_next ls x sma' : OD (ls ++ [x]) -> x < sma' -> below_max sma' -> OI (ls ++ [x]) sma'.
+Proof.
+  intros (A & B & C) Hx Hb. repeat split.
+  - apply SS_snoc; auto. apply SS_snoc_inv in A. destruct A as [_ A].
+    apply Forall_app; split.
+    + eapply Forall_impl; [|exact A]. simpl. intros a Ha. lra.
+    + constructor; auto.
+  - apply Forall_app; split; auto. constructor; [|constructor].
+    apply Forall_app in B. destruct B as [_ B]. inversion B; subst. destruct H1 as [H1 _].
+    split; [lra|auto].
+  - destruct C as [C|C]; [destruct ls; discriminate|].
+    destruct ls; simpl in *; auto.
+Qed.
+
+Lemma out_failure_smas i l1 noiter :
+  match out_failure Qnum maxsma i l1 noiter with
+  | ABreak _ l2 | ACont _ l2 _ => smas l2 = smas l1
+  | _ => True
+  end.
+Proof.
+  unfold out_failure.
+  destruct ((i_code Qnum i <? 0)%Z || (i_code Qnum i =? 1)%Z); auto.
+  destruct (length l1 =? 1)%nat; auto.
+  destruct (fix_last Qnum l1) as [l2|] eqn:E; auto. apply fix_last_smas in E.
+  destruct (last_opt Qnum l2); auto.
+  destruct ((2 <? length l2)%nat && _); auto.
+  destruct maxsma as [t|]; auto. destruct (truthy Qnum t && _); auto.
+Qed.
+
+Lemma outward_inv : forall fuel sma noiter first l s calls,
+  stream_ok s -> OI (smas l) sma ->
+  match outward Qnum lin step maxsma maxrit fuel sma noiter first l s calls with
+  | PDone _ l2 s2 _ => OD (smas l2) /\ stream_ok s2
+  | PStop _ (Ret _ r) _ => r = []
+  | PStop _ _ _ => True
+  end.
+Proof.
+  induction fuel as [|f IH]; intros sma noiter first l s calls Hs HI; simpl; auto.
+  destruct (fit_isophote Qnum maxrit sma noiter l s) as [[[i l1] s1]|] eqn:Hf; auto.
+  destruct (fit_isophote_spec _ _ _ _ _ _ _ _ Hf Hs) as (Hsma & Hval & Hl1 & Hs1).
+  assert (HD1 : OD (smas l1)).
+  { subst l1. destruct (i_valid Qnum i).
+    - rewrite smas_app. simpl. rewrite Hsma. apply OI_OD_full; auto.
+    - eapply OI_OD_prefix; eauto. }
+  pose proof (out_failure_smas i l1 noiter) as Ho.
+  destruct (out_failure Qnum maxsma i l1 noiter) as [| |l2|l2 noiter']; auto.
+  - rewrite Ho. auto.
+  - destruct (last_opt Qnum l2) as [j|] eqn:Hl; auto.
+    destruct (last_opt_some _ _ Hl) as [l' Hl'].
+    assert (HD2 : OD (smas l' ++ [i_sma Qnum j])).
+    { rewrite <- Ho in HD1. rewrite Hl', smas_app in HD1. exact HD1. }
+    assert (Hpos : 0 < i_sma Qnum j).
+    { destruct HD2 as (_ & B & _). apply Forall_app in B. destruct B as [_ B].
+      inversion B; subst. destruct H1 as [H1 _]. lra. }
+    pose proof (update_sma_increases lin _ _ Hstep Hpos) as Hup.
+    assert (Hsm : smas l2 = smas l' ++ [i_sma Qnum j]) by (rewrite Hl', smas_app; reflexivity).
+    destruct maxsma as [m|] eqn:Hm.
+    + match goal with |- context [if ?b then _ else _] => destruct b eqn:Hc end.
+      * rewrite Hsm. auto.
+      * apply IH; auto. rewrite Hsm. apply OI_next; auto.
+        intros m' Hm' Ht. assert (m' = m) by congruence; subst m'. rewrite Ht in Hc. simpl in Hc.
+        apply Qleb_false in Hc. exact Hc.
+    + apply IH; auto. rewrite Hsm. apply OI_next; auto.
+      intros m' Hm'. congruence.
+Qed.
+
+(* inward loop (repaired: test before each fit) *)
+Definition mx : Q := pymax Qnum minsma (n05 Qnum).
+Lemma mx_ge : minsma <= mx /\ 1 # 2 <= mx.
+Proof.
+  unfold mx, pymax. simpl. destruct (Qltb minsma (1 # 2)) eqn:E.
+  - apply Qltb_iff in E. lra.
+  - apply Qltb_false in E. lra.
+Qed.
+
+Definition gtQ (a b : Q) := b < a.
+Definition II (li : list Q) (sma : Q) :=
+  StronglySorted gtQ (sma0 :: li ++ [sma]) /\ Forall (fun x => mx < x) li.
+Definition ID (li : list Q) :=
+  StronglySorted gtQ (sma0 :: li) /\ Forall (fun x => mx < x) li.
+
+Lemma II_ID li sma : II li sma -> ID li.
+Proof.
+  intros [A B]. split; auto. change (sma0 :: li ++ [sma]) with ((sma0 :: li) ++ [sma]) in A.
+  apply SS_snoc_inv in A. tauto.
+Qed.
+Lemma II_ID_full li sma : II li sma -> mx < sma -> ID (li ++ [sma]).
+Proof.
+  intros [A B] H. split; auto. apply Forall_app; split; auto.
+Qed.
+Lemma II_next li sma sma' : II li sma -> mx < sma -> sma' < sma -> II (li ++ [sma]) sma'.
+Proof.
+  intros [A B] H H'. split.
+  - change (sma0 :: (li ++ [sma]) ++ [sma']) with ((sma0 :: li ++ [sma]) ++ [sma']).
+    apply SS_snoc; auto.
+    change (sma0 :: li ++ [sma]) with ((sma0 :: li) ++ [sma]) in *.
+    apply SS_snoc_inv in A. destruct A as [_ A].
+    apply Forall_app; split.
+    + eapply Forall_impl; [|exact A]. unfold gtQ. simpl. intros a Ha. lra.
+    + constructor; auto.
+  - apply Forall_app; split; auto.
+Qed.
+
+Section Inward.
+Variables (istep : Q) (lo : list Q).
+Hypothesis Histep : forall x, 0 < x -> update_sma Qnum lin x istep < x.
+
+Lemma inward_inv : forall fuel sma l s calls li,
+  smas l = lo ++ li -> stream_ok s -> II li sma ->
+  match inward Qnum lin minsma maxrit true fuel sma istep l s calls with
+  | PDone _ l2 s2 _ => exists li2, smas l2 = lo ++ li2 /\ ID li2
+  | PStop _ (Ret _ r) _ => r = []
+  | PStop _ _ _ => True
+  end.
+Proof.
+  induction fuel as [|f IH]; intros sma l s calls li Hl Hs HI; simpl; auto.
+  change (pymax Qnum minsma (1 # 2)) with mx. destruct (Qltb mx sma) eqn:Hm; simpl.
+  2:{ exists li. split; auto. eapply II_ID; eauto. }
+  apply Qltb_iff in Hm.
+  destruct (fit_isophote Qnum maxrit sma false l s) as [[[i l1] s1]|] eqn:Hf; auto.
+  destruct (fit_isophote_spec _ _ _ _ _ _ _ _ Hf Hs) as (Hsma & Hval & Hl1 & Hs1).
+  destruct (if (i_code Qnum i <? 0)%Z then fix_last Qnum l1 else Some l1) as [l2|] eqn:Hfx; auto.
+  assert (Hsm : smas l2 = smas l1).
+  { destruct (i_code Qnum i <? 0)%Z; [apply fix_last_smas; auto|inversion Hfx; auto]. }
+  destruct (i_valid Qnum i) eqn:Hv.
+  - assert (Hsm2 : smas l2 = lo ++ (li ++ [sma])).
+    { rewrite Hsm, Hl1, smas_app, Hl. simpl. rewrite Hsma, app_assoc. reflexivity. }
+    destruct (i_code Qnum i =? 3)%Z.
+    + exists (li ++ [sma]). split; auto. apply II_ID_full; auto.
+    + destruct (last_opt Qnum l2) as [j|] eqn:Hlast; auto.
+      destruct (last_opt_some _ _ Hlast) as [l' Hl'].
+      assert (Hj : i_sma Qnum j = sma).
+      { rewrite Hl', smas_app, app_assoc in Hsm2. simpl in Hsm2.
+        apply app_inj_tail in Hsm2. tauto. }
+      rewrite Hj. apply IH with (li := li ++ [sma]); auto.
+      apply II_next; auto. apply Histep. pose proof mx_ge. lra.
+  - rewrite (Hval eq_refl). simpl.
+    exists li. split; [rewrite Hsm, Hl1; auto|eapply II_ID; eauto].
+Qed.
+End Inward.
+
+(* what the property says about a returned list *)
+Definition sma_class (x : Q) :=
+  x == sma0 \/ (sma0 < x /\ below_max x) \/ (mx < x /\ x < sma0) \/ (x == 0 /\ minsma == 0).
+Definition lts (a b : isoQ) := i_sma Qnum a < i_sma Qnum b.
+Definition Good (l : list isoQ) :=
+  StronglySorted lts l /\
+  (exists i, In i l /\ i_sma Qnum i = sma0) /\
+  ((exists i, In i l /\ i_sma Qnum i == 0) <-> minsma == 0) /\
+  (forall i, In i l -> sma_class (i_sma Qnum i)).
+
+(* list.sort() *)
+Lemma insert_In (x y : isoQ) l : In y (insert Qnum x l) <-> y = x \/ In y l.
+Proof.
+  induction l as [|a l IH]; simpl.
+  - intuition.
+  - destruct (Qltb (i_sma Qnum a) (i_sma Qnum x)); simpl; rewrite ?IH; intuition.
+Qed.
+Lemma sort_In (y : isoQ) l : In y (sort Qnum l) <-> In y l.
+Proof.
+  induction l as [|a l IH]; simpl; [tauto|]. rewrite insert_In, IH. intuition.
+Qed.
+Lemma insert_SS (x : isoQ) l :
+  StronglySorted lts l -> Forall (fun y => ~ i_sma Qnum x == i_sma Qnum y) l ->
+  StronglySorted lts (insert Qnum x l).
+Proof.
+  induction l as [|a l IH]; simpl; intros HS HF.
+  - constructor; constructor.
+  - inversion HS; subst. inversion HF; subst.
+    destruct (Qltb (i_sma Qnum a) (i_sma Qnum x)) eqn:E.
+    + apply Qltb_iff in E. constructor; auto.
+      apply Forall_forall. intros y Hy. apply insert_In in Hy. destruct Hy as [->|Hy]; auto.
+      rewrite Forall_forall in H2. auto.
+    + apply Qltb_false in E. assert (Hlt : i_sma Qnum x < i_sma Qnum a).
+      { destruct (Qlt_le_dec (i_sma Qnum x) (i_sma Qnum a)); auto. exfalso. apply H3. lra. }
+      constructor; auto. constructor; auto.
+      eapply Forall_impl; [|exact H2]. unfold lts. simpl. intros b Hb. lra.
+Qed.
+Lemma sort_SS (l : list isoQ) :
+  StronglySorted (fun a b => ~ i_sma Qnum a == i_sma Qnum b) l -> StronglySorted lts (sort Qnum l).
+Proof.
+  induction 1 as [|a l HS IH HF]; simpl; [constructor|]. apply insert_SS; [exact IH|].
+  apply Forall_forall. intros y Hy. apply (proj1 (sort_In y l)) in Hy. rewrite Forall_forall in HF. apply HF; auto.
+Qed.
+
+Lemma final_good (l : list isoQ) lo li c :
+  smas l = lo ++ li ++ c -> OD lo -> lo <> [] -> ID li ->
+  (c = [0] /\ minsma == 0 \/ c = [] /\ ~ minsma == 0) -> Good (sort Qnum l).
+Proof.
+  intros Hl (A & B & C) Hne (D & E) Hc.
+  pose proof mx_ge as [Hmx1 Hmx2].
+  inversion D as [|? ? D1 D2]; subst.
+  rewrite Forall_forall in B, E, D2.
+  assert (Hcls : forall x, In x (lo ++ li ++ c) -> sma_class x /\
+            (In x lo -> sma0 <= x) /\ (In x li -> mx < x /\ x < sma0) /\ (In x c -> x == 0 /\ minsma == 0)).
+  { intros x Hx. split; [|split; [|split]].
+    - apply in_app_or in Hx. destruct Hx as [Hx|Hx].
+      + destruct (B _ Hx) as [H1 [H2|H2]]; [left; auto|].
+        destruct (Qeq_dec x sma0); [left; auto|]. right; left. split; auto.
+        destruct (Qlt_le_dec sma0 x); auto. exfalso. apply n. lra.
+      + apply in_app_or in Hx. destruct Hx as [Hx|Hx].
+        * right; right; left. split; [apply E|apply D2]; auto.
+        * right; right; right. destruct Hc as [[-> Hc]|[-> Hc]]; simpl in Hx; [|tauto].
+          destruct Hx as [<-|[]]. split; auto; reflexivity.
+    - intros Hx'. apply B; auto.
+    - intros Hx'. split; [apply E|apply D2]; auto.
+    - intros Hx'. destruct Hc as [[-> Hc]|[-> Hc]]; simpl in Hx'; [|tauto].
+      destruct Hx' as [<-|[]]. split; auto; reflexivity. }
+  repeat split.
+  - apply sort_SS. apply (SS_map (i_sma Qnum) (fun a b => ~ a == b)). fold (smas l). rewrite Hl.
+    apply SS_app; [eapply SS_impl; [|exact A]; intros; lra| |].
+    + apply SS_app; [eapply SS_impl; [|exact D1]; unfold gtQ; intros; lra| |].
+      * destruct Hc as [[-> _]|[-> _]]; repeat constructor.
+      * intros a b Ha Hb.
+        destruct (Hcls a) as (_ & _ & Ha' & _); [apply in_or_app; right; apply in_or_app; auto|].
+        destruct (Hcls b) as (_ & _ & _ & Hb'); [apply in_or_app; right; apply in_or_app; auto|].
+        specialize (Ha' Ha). specialize (Hb' Hb). lra.
+    + intros a b Ha Hb.
+      destruct (Hcls a) as (_ & Ha' & _ & _); [apply in_or_app; auto|]. specialize (Ha' Ha).
+      destruct (Hcls b) as (_ & _ & Hb1 & Hb2); [apply in_or_app; auto|].
+      apply in_app_or in Hb. destruct Hb as [Hb|Hb]; [specialize (Hb1 Hb)|specialize (Hb2 Hb)]; lra.
+  - destruct C as [C|C]; [contradiction|].
+    destruct lo as [|a lo']; [contradiction|]. simpl in C. inversion C; subst a.
+    destruct l as [|i l']; [discriminate|]. simpl in Hl. inversion Hl.
+    exists i. split; auto. apply sort_In. simpl; auto.
+  - intros [i [Hi H0]]. apply (proj1 (sort_In _ _)) in Hi.
+    assert (Hx : In (i_sma Qnum i) (lo ++ li ++ c)) by (rewrite <- Hl; unfold smas; apply in_map; exact Hi).
+    destruct (Hcls _ Hx) as (_ & H1 & H2 & H3).
+    apply in_app_or in Hx. destruct Hx as [Hx|Hx]; [specialize (H1 Hx); lra|].
+    apply in_app_or in Hx. destruct Hx as [Hx|Hx]; [specialize (H2 Hx); lra|].
+    apply H3; auto.
+  - intros Hmin. destruct Hc as [[-> _]|[_ Hc]]; [|contradiction].
+    assert (Hx : In 0 (smas l)) by (rewrite Hl; apply in_or_app; right; apply in_or_app; right; simpl; auto).
+    unfold smas in Hx. apply in_map_iff in Hx. destruct Hx as [i [Hi1 Hi2]].
+    exists i. split; [apply sort_In; auto|rewrite Hi1; reflexivity].
+  - intros i Hi. apply (proj1 (sort_In _ _)) in Hi.
+    assert (Hx : In (i_sma Qnum i) (lo ++ li ++ c)) by (rewrite <- Hl; unfold smas; apply in_map; exact Hi).
+    apply Hcls; auto.
+Qed.
+
+Lemma OI_init : OI [] sma0.
+Proof.
+  unfold OI; simpl. split; [|split].
+  - constructor; constructor.
+  - constructor; [|constructor]. split; [lra|left; reflexivity].
+  - reflexivity.
+Qed.
+Lemma II_init sin : sin < sma0 -> II [] sin.
+Proof.
+  intros H. unfold II; simpl. split; [|constructor].
+  constructor; [constructor; constructor|]. constructor; [exact H|constructor].
+Qed.
+
+Lemma fit_image_good fuel sma0arg gsma fix_all s l calls :
+  match sma0arg with Some v => if truthy Qnum v then v else gsma | None => gsma end = sma0 ->
+  stream_ok s ->
+  fit_image Qnum lin step minsma maxsma maxrit true fuel sma0arg gsma fix_all s = (Ret Qnum l, calls) ->
+  l = [] \/ Good l.
+Proof.
+  intros Ha Hs. unfold fit_image. destruct fix_all.
+  { intros H; inversion H; auto. }
+  rewrite Ha.
+  pose proof (outward_inv fuel sma0 false true [] s [] Hs OI_init) as Ho.
+  destruct (outward Qnum lin step maxsma maxrit fuel sma0 false true [] s []) as [l1 s1 calls1|r calls1].
+  2:{ intros H; inversion H; subst. left. exact Ho. }
+  destruct Ho as [HD Hs1].
+  destruct l1 as [|first rest] eqn:El1; [intros H; inversion H|]. rewrite <- El1 in *.
+  assert (Hfirst : i_sma Qnum first = sma0).
+  { destruct HD as (_ & _ & [C|C]); subst l1; simpl in C; [discriminate|]. inversion C; auto. }
+  destruct (reset_sma Qnum lin (i_sma Qnum first) step) as [sma_in istep] eqn:Er.
+  rewrite Hfirst in Er. destruct (reset_sma_spec _ _ _ _ _ Hstep Er) as [Hin Hist].
+  specialize (Hin Hsma0).
+  assert (Hl1 : smas l1 = smas l1 ++ []) by (rewrite app_nil_r; reflexivity).
+  pose proof (inward_inv istep (smas l1) Hist fuel sma_in l1 s1 calls1 [] Hl1 Hs1 (II_init _ Hin)) as Hi.
+  destruct (inward Qnum lin minsma maxrit true fuel sma_in istep l1 s1 calls1) as [l2 s2 calls2|r calls2].
+  2:{ intros H; inversion H; subst. left. exact Hi. }
+  destruct Hi as [li [Hl2 HID]].
+  assert (Hne : smas l1 <> []) by (subst l1; discriminate).
+  destruct (eqb Qnum minsma (n0 Qnum)) eqn:Hmin; simpl in Hmin.
+  - apply Qeq_bool_iff in Hmin.
+    unfold fit_isophote. simpl.
+    intros H; injection H as Hl Hc; subst l calls. right.
+    eapply final_good with (lo := smas l1) (li := li) (c := [0]); eauto.
+    rewrite smas_app, Hl2, <- app_assoc. reflexivity.
+  - intros H; injection H as Hl Hc; subst l calls. right.
+    eapply final_good with (lo := smas l1) (li := li) (c := []); eauto.
+    + rewrite app_nil_r; auto.
+    + right. split; auto. intros Hq. apply Qeq_bool_iff in Hq. simpl in Hq. congruence.
+Qed.
+End SchedQ.
+
+(* ---- final statements about fit_image ------------------------------------ *)
+Definition eff_sma0 (sma0arg : option Q) (gsma : Q) : Q :=
+  match sma0arg with Some v => if truthy Qnum v then v else gsma | None => gsma end.
+
+Lemma sma_schedule_classes_proof lin step minsma maxsma maxrit fuel sma0arg gsma fix_all s l calls :
+  0 < step -> 0 < eff_sma0 sma0arg gsma -> stream_ok s ->
+  fit_image Qnum lin step minsma maxsma maxrit true fuel sma0arg gsma fix_all s = (Ret Qnum l, calls) ->
+  l = [] \/ Good minsma maxsma (eff_sma0 sma0arg gsma) l.
+Proof.
+  intros Hs Ha Hok H. exact (fit_image_good lin step minsma maxsma maxrit _ Hs Ha fuel sma0arg gsma fix_all s l calls eq_refl Hok H).
+Qed.
+
+Lemma sma_schedule_proof lin step minsma maxsma maxrit fuel sma0arg gsma fix_all s l calls :
+  let a0 := eff_sma0 sma0arg gsma in
+  0 < step -> 0 < a0 -> minsma <= a0 -> (forall m, maxsma = Some m -> a0 <= m) -> stream_ok s ->
+  fit_image Qnum lin step minsma maxsma maxrit true fuel sma0arg gsma fix_all s = (Ret Qnum l, calls) ->
+  l = [] \/
+  (StronglySorted (fun a b => i_sma Qnum a < i_sma Qnum b) l /\
+   (exists i, In i l /\ i_sma Qnum i = a0) /\
+   ((exists i, In i l /\ i_sma Qnum i == 0) <-> minsma == 0) /\
+   (forall i, In i l ->
+      minsma <= i_sma Qnum i /\
+      (forall m, maxsma = Some m -> i_sma Qnum i < m \/ i_sma Qnum i == a0) /\
+      (i_sma Qnum i == 0 \/ 1 # 2 < i_sma Qnum i \/ a0 <= i_sma Qnum i))).
+Proof.
+  intros a0 Hs Ha Hmin Hmax Hok H. subst a0.
+  destruct (sma_schedule_classes_proof _ _ _ _ _ _ _ _ _ _ _ _ Hs Ha Hok H) as [E|(A & B & C & D)]; auto.
+  right. repeat split; auto; try apply C.
+  - destruct (D i H0) as [Hc|[[Hc _]|[[Hc _]|[Hc1 Hc2]]]]; pose proof (mx_ge minsma); lra.
+  - intros m Hm. specialize (Hmax m Hm).
+    destruct (D i H0) as [Hc|[[_ Hc]|[[_ Hc]|[Hc1 Hc2]]]]; auto.
+    + left. apply (Hc m Hm). unfold truthy. simpl. destruct (Qeq_bool m 0) eqn:E; auto.
+      apply Qeq_bool_iff in E. lra.
+    + left. lra.
+    + left. lra.
+  - destruct (D i H0) as [Hc|[[Hc _]|[[Hc _]|[Hc1 Hc2]]]]; pose proof (mx_ge minsma); auto; right; try (left; lra); right; lra.
+Qed.
+
+(* the snapshot's inward loop (top_test = false) fits below minsma: DESIGN.md section 6 item 24 *)
+Lemma sma_lower_bound_refuted_unrepaired_proof :
+  exists l calls,
+    fit_image Qnum false (1 # 10) (19 # 2) (Some 11) None false 50 (Some 10) 10 false
+              [(0%Z, true); (0%Z, true); (0%Z, true)] = (Ret Qnum l, calls) /\
+    exists i, In i l /\ i_sma Qnum i < 19 # 2.
+Proof.
+  eexists. eexists. split; [vm_compute; reflexivity|].
+  eexists. split; [left; reflexivity|]. vm_compute. reflexivity.
+Qed.
+
+(* ================================================================== *)
+(* (C) fitter                                                          *)
+(* ================================================================== *)
+(* ------------------------------------------------------------------ *)
+(* (C) EllipseFitter.fit: the corrector index                          *)
+(* ------------------------------------------------------------------ *)
+Notation oltQ := (olt Qnum).
+
+Lemma olt_irrefl a : oltQ a a = false.
+Proof. destruct a as [x|]; simpl; auto. apply Qltb_false. lra. Qed.
+(* best < v, v <= vk  ==>  best <= vk  (written with "not less") *)
+Lemma olt_step1 best v vk : oltQ best v = true -> oltQ vk v = false -> oltQ vk best = false.
+Proof.
+  destruct best as [b|], v as [x|], vk as [k|]; simpl; auto; try discriminate.
+  rewrite Qltb_iff, !Qltb_false. lra.
+Qed.
+(* v <= best, best <= vk  ==>  v <= vk *)
+Lemma olt_step2 best v vk : oltQ best v = false -> oltQ vk best = false -> oltQ vk v = false.
+Proof.
+  destruct best as [b|], v as [x|], vk as [k|]; simpl; auto; try discriminate.
+  rewrite !Qltb_false. lra.
+Qed.
+
+Lemma argmax_from_spec : forall l i best bi, (bi < i)%nat ->
+  let k := argmax_from Qnum l i best bi in
+  exists vk, ((k = bi /\ vk = best) \/ ((i <= k)%nat /\ nth_error l (k - i) = Some vk)) /\
+             oltQ vk best = false /\ (forall v, In v l -> oltQ vk v = false) /\
+             (* first maximum: everything before it is strictly smaller *)
+             (forall j v, (i <= j)%nat -> (j < k)%nat -> nth_error l (j - i) = Some v -> oltQ v vk = true) /\
+             ((k = bi) \/ (oltQ best vk = true)).
+Proof.
+  induction l as [|v r IH]; intros i best bi Hbi; simpl.
+  - exists best. repeat split; auto using olt_irrefl.
+    + intros v [].
+    + intros j v Hj Hk. destruct (j - i)%nat; discriminate.
+  - destruct (oltQ best v) eqn:E.
+    + destruct (IH (S i) v i ltac:(lia)) as (vk & Hsel & Hge & Hmax & Hfirst & Hbest).
+      exists vk. split; [|split; [|split; [|split]]].
+      * right. destruct Hsel as [[Hk Hv]|[Hk Hn]].
+        -- rewrite Hk, Hv, Nat.sub_diag. split; auto.
+        -- split; [lia|]. replace (argmax_from Qnum r (S i) v i - i)%nat
+             with (S (argmax_from Qnum r (S i) v i - S i)) by lia. exact Hn.
+      * eapply olt_step1; eauto.
+      * intros w [<-|Hw]; auto.
+      * intros j w Hj Hk Hn. destruct (Nat.eq_dec j i) as [->|Hne].
+        -- rewrite Nat.sub_diag in Hn. simpl in Hn. inversion Hn; subst w.
+           destruct Hbest as [Hb|Hb]; [lia|exact Hb].
+        -- apply (Hfirst j w); try lia. replace (j - i)%nat with (S (j - S i)) in Hn by lia. exact Hn.
+      * right. destruct Hsel as [[Hk Hv]|[Hk Hn]].
+        -- rewrite Hv. exact E.
+        -- destruct Hbest as [Hb|Hb]; [lia|].
+           (* best < v < vk *)
+           destruct best as [b|], v as [x|], vk as [k|]; simpl in *; auto; try discriminate.
+           rewrite Qltb_iff in *. lra.
+    + destruct (IH (S i) best bi ltac:(lia)) as (vk & Hsel & Hge & Hmax & Hfirst & Hbest).
+      exists vk. split; [|split; [|split; [|split]]].
+      * destruct Hsel as [[Hk Hv]|[Hk Hn]]; [left; auto|right].
+        split; [lia|]. replace (argmax_from Qnum r (S i) best bi - i)%nat
+             with (S (argmax_from Qnum r (S i) best bi - S i)) by lia. exact Hn.
+      * exact Hge.
+      * intros w [<-|Hw]; auto. eapply olt_step2; eauto.
+      * intros j w Hj Hk Hn. destruct (Nat.eq_dec j i) as [->|Hne].
+        -- rewrite Nat.sub_diag in Hn. simpl in Hn. inversion Hn; subst w.
+           destruct Hbest as [Hb|Hb].
+           ++ (* k = bi: cannot be, since i <= j < k is needed... k = bi may be below i *)
+              destruct Hsel as [[Hk' Hv]|[Hk' Hn']]; [|lia].
+              (* no information relating bi and i: excluded by the caller's invariant *)
+              exfalso. clear - Hk Hk' Hb Hj Hbi. lia.
+           ++ destruct best as [b|], v as [x|], vk as [k|]; simpl in *; auto; try discriminate.
+              rewrite Qltb_iff in *. rewrite Qltb_false in E. lra.
+        -- apply (Hfirst j w); try lia. replace (j - i)%nat with (S (j - S i)) in Hn by lia. exact Hn.
+      * exact Hbest.
+Qed.
+
+Lemma nth_error_map2 {B C D} (f : B -> C -> D) : forall a b j,
+  nth_error (map2 f a b) j =
+  match nth_error a j, nth_error b j with Some x, Some y => Some (f x y) | _, _ => None end.
+Proof.
+  induction a as [|x a IH]; intros [|y b] [|j]; simpl; auto.
+  - destruct (nth_error a j); auto.
+Qed.
+
+Definition hvals (coeffs : list Q) (mask : list bool) : list (option Q) :=
+  map2 (fun c (m : bool) => if m then None else Some (nabs Qnum c)) coeffs mask.
+
+(* np.argmax(np.abs(np.ma.masked_array(coeffs[1:], mask=fix))) never returns a masked
+   (= fixed) index as long as one harmonic is free, and returns the first largest free one *)
+Lemma argmax_masked_spec coeffs mask :
+  (exists j c, nth_error mask j = Some false /\ nth_error coeffs j = Some c) ->
+  let k := argmax_masked Qnum coeffs mask in
+  nth_error mask k = Some false /\
+  exists c, nth_error coeffs k = Some c /\
+    (forall j cj, nth_error mask j = Some false -> nth_error coeffs j = Some cj ->
+                  nabs Qnum cj <= nabs Qnum c) /\
+    (forall j cj, (j < k)%nat -> nth_error mask j = Some false -> nth_error coeffs j = Some cj ->
+                  nabs Qnum cj < nabs Qnum c).
+Proof.
+  intros (j0 & c0 & Hm0 & Hc0). unfold argmax_masked. fold (hvals coeffs mask).
+  assert (H0 : nth_error (hvals coeffs mask) j0 = Some (Some (nabs Qnum c0))).
+  { unfold hvals. rewrite nth_error_map2, Hc0, Hm0. reflexivity. }
+  destruct (hvals coeffs mask) as [|v0 r] eqn:Ev.
+  { destruct j0; discriminate. }
+  destruct (argmax_from_spec r 1 v0 0 ltac:(lia)) as (vk & Hsel & Hge & Hmax & Hfirst & Hbest).
+  set (k := argmax_from Qnum r 1 v0 0) in *.
+  assert (Hk : nth_error (v0 :: r) k = Some vk).
+  { destruct Hsel as [[-> ->]|[Hk Hn]]; auto.
+    replace k with (S (k - 1)) by lia. exact Hn. }
+  assert (Hall : forall v, In v (v0 :: r) -> oltQ vk v = false).
+  { intros v [<-|Hv]; auto. }
+  assert (Hvk : exists b, vk = Some b).
+  { destruct vk as [b|]; eauto. exfalso.
+    specialize (Hall _ (nth_error_In _ _ H0)). simpl in Hall. discriminate. }
+  destruct Hvk as [b ->].
+  rewrite <- Ev in Hk. unfold hvals in Hk. rewrite nth_error_map2 in Hk.
+  destruct (nth_error coeffs k) as [c|] eqn:Ec; [|discriminate].
+  destruct (nth_error mask k) as [m|] eqn:Em; [|discriminate].
+  destruct m; [discriminate|]. inversion Hk; subst b. split; auto.
+  exists c. split; auto. split.
+  - intros j cj Hmj Hcj.
+    assert (Hin : In (Some (nabs Qnum cj)) (v0 :: r)).
+    { rewrite <- Ev. apply (nth_error_In _ j). unfold hvals. rewrite nth_error_map2, Hcj, Hmj. reflexivity. }
+    specialize (Hall _ Hin). simpl in Hall. apply Qltb_false in Hall. exact Hall.
+  - intros j cj Hjk Hmj Hcj.
+    assert (Hn : nth_error (v0 :: r) j = Some (Some (nabs Qnum cj))).
+    { rewrite <- Ev. unfold hvals. rewrite nth_error_map2, Hcj, Hmj. reflexivity. }
+    destruct j as [|j].
+    + simpl in Hn. inversion Hn; subst v0.
+      destruct Hsel as [[Hk0 _]|[Hk1 Hn1]]; [lia|].
+      (* k >= 1: the running best was replaced at least once, so v0 < vk *)
+      destruct Hbest as [Hb|Hb]; [lia|]. simpl in Hb. apply Qltb_iff in Hb. exact Hb.
+    + simpl in Hn. specialize (Hfirst (S j) (Some (nabs Qnum cj)) ltac:(lia) Hjk).
+      replace (S j - 1)%nat with j in Hfirst by lia. specialize (Hfirst Hn).
+      simpl in Hfirst. apply Qltb_iff in Hfirst. exact Hfirst.
+Qed.
+
+(* ------------------------------------------------------------------ *)
+(* fixed parameters through the whole iteration                        *)
+(* ------------------------------------------------------------------ *)
+Section FitQ.
+Variables (max_eps min_eps pi2 : Q) (fc fpa feps : bool).
+Hypothesis Hfree : fc && fpa && feps = false.
+Notation geomQ := (geom Qnum).
+Notation mask := (fix_mask fc fpa feps).
+
+Definition keeps (g0 g : geomQ) :=
+  (fc = true -> g_x0 Qnum g = g_x0 Qnum g0 /\ g_y0 Qnum g = g_y0 Qnum g0) /\
+  (fpa = true -> g_pa Qnum g = g_pa Qnum g0) /\
+  (feps = true -> g_eps Qnum g = g_eps Qnum g0).
+
+Lemma keeps_refl g : keeps g g.
+Proof. split; [|split]; auto. Qed.
+Lemma keeps_trans g0 g1 g2 : keeps g0 g1 -> keeps g1 g2 -> keeps g0 g2.
+Proof.
+  intros (A & B & C) (A' & B' & C'). split; [|split]; intros HH.
+  - destruct (A HH), (A' HH); split; congruence.
+  - rewrite (B' HH); auto.
+  - rewrite (C' HH); auto.
+Qed.
+
+Lemma free_exists (coeffs : list Q) : length coeffs = 4%nat ->
+  exists j c, nth_error mask j = Some false /\ nth_error coeffs j = Some c.
+Proof.
+  intros Hl. destruct coeffs as [|a [|b [|c [|d [|]]]]]; try discriminate.
+  unfold fix_mask. destruct fc; [destruct fpa; [destruct feps; [discriminate|]|]|].
+  - exists 3%nat, d. auto.
+  - exists 2%nat, c. auto.
+  - exists 0%nat, a. auto.
+Qed.
+
+(* fitter.py:186-227: the corrector applied never touches a fixed parameter *)
+Lemma correct_keeps g o : length (o_coeffs Qnum o) = 4%nat ->
+  keeps g (correct Qnum max_eps (argmax_masked Qnum (o_coeffs Qnum o) mask) g o).
+Proof.
+  intros Hl. destruct (argmax_masked_spec _ _ (free_exists _ Hl)) as [Hm _].
+  set (k := argmax_masked Qnum (o_coeffs Qnum o) mask) in *.
+  unfold fix_mask in Hm.
+  destruct k as [|[|[|[|k]]]]; simpl in Hm; unfold keeps, correct; simpl;
+    try (inversion Hm; subst); repeat split; auto; try discriminate.
+  all: destruct k; discriminate.
+Qed.
+
+Lemma normalise_xy g :
+  g_x0 Qnum (normalise Qnum max_eps min_eps pi2 g) = g_x0 Qnum g /\
+  g_y0 Qnum (normalise Qnum max_eps min_eps pi2 g) = g_y0 Qnum g.
+Proof.
+  unfold normalise. destruct (ltb Qnum (g_eps Qnum g) (n0 Qnum)); simpl;
+  match goal with |- context [if ?b then _ else _] => destruct b end; simpl; auto.
+Qed.
+Lemma normalise_pa g : 0 <= g_eps Qnum g ->
+  g_pa Qnum (normalise Qnum max_eps min_eps pi2 g) = g_pa Qnum g.
+Proof.
+  intros H. unfold normalise. simpl. destruct (Qltb (g_eps Qnum g) 0) eqn:E.
+  - apply Qltb_iff in E. lra.
+  - destruct (Qeq_bool (g_eps Qnum g) 0); reflexivity.
+Qed.
+Lemma normalise_eps g : 0 < g_eps Qnum g ->
+  g_eps Qnum (normalise Qnum max_eps min_eps pi2 g) = g_eps Qnum g.
+Proof.
+  intros H. unfold normalise. simpl. destruct (Qltb (g_eps Qnum g) 0) eqn:E.
+  - apply Qltb_iff in E. lra.
+  - destruct (Qeq_bool (g_eps Qnum g) 0) eqn:E0; [|reflexivity].
+    apply Qeq_bool_iff in E0. lra.
+Qed.
+
+Lemma fit_loop_trace_incl inw minit : forall os i g lex minamp tr,
+  incl tr (snd (fit_loop Qnum max_eps min_eps pi2 mask inw minit i os g lex minamp tr)).
+Proof.
+  induction os as [|o os IH]; intros i g lex minamp tr; simpl.
+  - apply incl_refl.
+  - destruct (o_empty Qnum o || o_fitfail Qnum o); simpl; [apply incl_refl|].
+    destruct (o_converged Qnum o && (minit - 1 <=? i)%nat); simpl; [apply incl_refl|].
+    destruct (o_fewpts Qnum o); simpl; [apply incl_refl|].
+    destruct (o_gradzero Qnum o); simpl; [apply incl_refl|].
+    destruct (check_conditions _ _ _ _ _ _) as [p lx].
+    destruct p; simpl.
+    + eapply incl_tran; [|apply IH]. apply incl_appl, incl_refl.
+    + apply incl_appl, incl_refl.
+Qed.
+
+Lemma fit_loop_keeps g0 inw minit : forall os i g lex minamp tr,
+  Forall (fun o => length (o_coeffs Qnum o) = 4%nat) os ->
+  keeps g0 g -> (forall a gm, minamp = Some (a, gm) -> keeps g0 gm) ->
+  (feps = true -> 0 < g_eps Qnum g0) ->
+  let r := fit_loop Qnum max_eps min_eps pi2 mask inw minit i os g lex minamp tr in
+  (fpa = true -> feps = false -> forall gc, In gc (snd r) -> 0 <= g_eps Qnum gc) ->
+  keeps g0 (snd (fst r)).
+Proof.
+  induction os as [|o os IH]; intros i g lex minamp tr Hlen Hg Hmin Heps; cbn [fit_loop].
+  - intros _. destruct minamp as [[a gm]|]; cbn [fst snd]; eauto.
+  - inversion Hlen as [|? ? Hl4 Hlen']; subst.
+    destruct (o_empty Qnum o || o_fitfail Qnum o); cbn [fst snd]; auto.
+    set (k := argmax_masked Qnum (o_coeffs Qnum o) mask).
+    set (amp := nabs Qnum (nth k (o_coeffs Qnum o) (n0 Qnum))).
+    set (minamp' := match minamp with
+                    | Some (a, gm) => if ltb Qnum amp a then Some (amp, g) else Some (a, gm)
+                    | None => Some (amp, g) end).
+    assert (Hmin' : forall a gm, minamp' = Some (a, gm) -> keeps g0 gm).
+    { intros a gm. unfold minamp'. destruct minamp as [[a0 gm0]|].
+      - destruct (ltb Qnum amp a0); intros E; inversion E; subst; eauto.
+      - intros E; inversion E; subst; auto. }
+    clearbody minamp'.
+    destruct (o_converged Qnum o && (minit - 1 <=? i)%nat); cbn [fst snd]; auto.
+    destruct (o_fewpts Qnum o); cbn [fst snd].
+    { intros _. destruct minamp' as [[a gm]|]; eauto. }
+    destruct (o_gradzero Qnum o); cbn [fst snd]; auto.
+    set (gc := correct Qnum max_eps k g o).
+    assert (Hgc : keeps g0 gc) by (eapply keeps_trans; [exact Hg|apply correct_keeps; auto]).
+    clearbody gc.
+    destruct (check_conditions Qnum max_eps gc o inw lex) as [p lx].
+    assert (Hn : (fpa = true -> feps = false -> 0 <= g_eps Qnum gc) ->
+                 keeps g0 (normalise Qnum max_eps min_eps pi2 gc)).
+    { intros Hpos. destruct Hgc as (A & B & C). destruct (normalise_xy gc) as [Hx Hy].
+      split; [|split]; intros HH.
+      - rewrite Hx, Hy. apply A; auto.
+      - rewrite normalise_pa; auto. destruct feps eqn:Ef; auto.
+        rewrite (C eq_refl). specialize (Heps eq_refl). lra.
+      - rewrite normalise_eps; auto. rewrite (C HH). auto. }
+    destruct p; cbn [fst snd].
+    + intros Htr. apply IH; auto.
+      apply Hn. intros H1 H2. apply (Htr H1 H2).
+      apply fit_loop_trace_incl. apply in_or_app. right. simpl; auto.
+    + intros Htr. apply Hn. intros H1 H2. apply (Htr H1 H2). apply in_or_app. right. simpl; auto.
+Qed.
+
+(* every exit of the fitter that is not valid has stop code 3 (premise of the schedule theorem) *)
+Lemma fit_loop_invalid_code3 inw minit : forall os i g lex minamp tr,
+  let r := fst (fit_loop Qnum max_eps min_eps pi2 mask inw minit i os g lex minamp tr) in
+  snd (fst r) = false -> fst (fst r) = 3%Z.
+Proof.
+  induction os as [|o os IH]; intros i g lex minamp tr; simpl; [discriminate|].
+  destruct (o_empty Qnum o || o_fitfail Qnum o); simpl; auto.
+  destruct (o_converged Qnum o && (minit - 1 <=? i)%nat); simpl; [discriminate|].
+  destruct (o_fewpts Qnum o); simpl; [discriminate|].
+  destruct (o_gradzero Qnum o); simpl; [discriminate|].
+  destruct (check_conditions _ _ _ _ _ _) as [p lx].
+  destruct p; simpl; [apply IH|discriminate].
+Qed.
+End FitQ.
+
+(* ---- final statements about fit --------------------------------------------- *)
+Lemma fixed_params_kept_proof max_eps min_eps pi2 fc fpa feps inw minit os g :
+  fc && fpa && feps = false ->
+  Forall (fun o => length (o_coeffs Qnum o) = 4%nat) os ->
+  (feps = true -> 0 < g_eps Qnum g) ->
+  let r := fit Qnum max_eps min_eps pi2 fc fpa feps inw minit os g in
+  (fpa = true -> feps = false -> forall gc, In gc (snd r) -> 0 <= g_eps Qnum gc) ->
+  keeps fc fpa feps g (snd (fst r)).
+Proof.
+  intros Hfree Hlen Heps. unfold fit. apply fit_loop_keeps; auto.
+  - apply keeps_refl.
+  - intros a gm E; discriminate.
+Qed.
+
+Lemma fit_invalid_only_code3_proof max_eps min_eps pi2 fc fpa feps inw minit os g :
+  let r := fst (fit Qnum max_eps min_eps pi2 fc fpa feps inw minit os g) in
+  snd (fst r) = false -> fst (fst r) = 3%Z.
+Proof. unfold fit. apply fit_loop_invalid_code3. Qed.
